@@ -110,6 +110,40 @@ class mounted:
         return False
 
 
+class stat_patched:
+    """context manager: os.stat answers for simulated paths (so do os.path.exists/isfile/getsize/getmtime).
+
+    The simulator owns the file's metadata too: the modification time of a simulated file never changes, which is
+    the coarse-timestamp situation (a file rewritten within one tick of the file system's clock) that makes caches
+    keyed by (path, size, mtime) return stale content.
+    """
+
+    def __init__(self, fs, mtime=1_700_000_000.0):
+        self.fs = fs
+        self.mtime = mtime
+        self._old = None
+
+    def __enter__(self):
+        self._old = os.stat
+        fs, mtime, old = self.fs, self.mtime, self._old
+
+        def fake_stat(path, *args, **kwargs):
+            try:
+                p = os.fspath(path)
+            except TypeError:
+                p = None
+            if isinstance(p, str) and p in fs.files:
+                size = len(fs.files[p])
+                return os.stat_result((0o100644, 1, 1, 1, 0, 0, size, mtime, mtime, mtime))
+            return old(path, *args, **kwargs)
+        os.stat = fake_stat
+        return self
+
+    def __exit__(self, *exc):
+        os.stat = self._old
+        return False
+
+
 # --------------------------------------------------------------------------
 # storage fault operators on stored bytes
 # --------------------------------------------------------------------------
